@@ -1,0 +1,7 @@
+//go:build !verif
+
+package ociauth
+
+import "time"
+
+func verifShift(t time.Time) time.Time { return t }
